@@ -80,7 +80,11 @@ def nontrivial(req, ans):
 SPEC = {
     "tables": ["OpenQasmTemplates"],
     "props_module": PROPS_MODULE,
-    "required": ["export_structure", "export_refuses", "templates_as_modelled"],
+    "required": ["export_structure", "export_ok_iff", "export_first_failure", "export_refuses", "export_ok_only_expressible",
+                 "templates_as_modelled", "structural_literals_as_modelled", "constant_gates_exact", "cv_cvdg_not_in_qelib1",
+                 "parametrised_one_qubit_gates", "semantics_is_fold", "neg_basis_measurement", "neg_condition_first_statement_only",
+                 "neg_empty_control_list", "neg_condition_target_overflow", "neg_cu3_relative_phase", "neg_empty_statement",
+                 "neg_reference_parameter", "neg_not_qelib1", "neg_export_panics", "pos_conditional_agrees", "pos_bell_agrees"],
     "drivers": ["drv_c11"],
     "harness_bin": "c11",
     "canon": canon,
